@@ -159,10 +159,14 @@ class C07(Prop, ScriptGen):
                 i += 1
                 if i % nshards != shard:
                     continue
-                if rng.random() < 0.3:
+                r = rng.random()          # at most one kind of known finding per history
+                if r < 0.25:
                     steps = steps[:1] + [self.step('v', b'\x51', b'\x51', 4, 0, 0)] + steps[1:]
-                if rng.random() < 0.3:
+                elif r < 0.5:
                     steps = steps + [self.step('e', b'\xac', [b'\x00', self.key(0)[1]], 0, 0, -5)]
+                if r < 0.5:
+                    steps = [st_[:3] + [str(int(st_[3]) | (1 if int(st_[3]) & 4 else 0))] + st_[4:]
+                             if k != (1 if r < 0.25 else len(steps) - 1) else st_ for k, st_ in enumerate(steps)]
                 yield Case(op='c07.seq', args=[x for st_ in steps for x in st_], tag=tag)
         # (3) random byte strings
         for _ in range(26000 if big else 800):
